@@ -118,10 +118,11 @@ def angle_tol(sin, v1n, v2n, vec_err=0.0, c=16.0):
 
     c*eps32/sin: rounding of the dot product seen through d(arccos)/dx = 1/sin;
     vec_err/|v|: direction change of a vector whose absolute error is vec_err.
-    Not decided (inf) when sin < 1e-2 or a vector has zero length."""
+    Not decided (inf) when sin < 1e-2, a vector has (nearly) zero length or is so
+    short against vec_err that the bound exceeds 0.1 rad."""
     with np.errstate(all="ignore"):
         tol = c * EPS32 / sin + 2.0 * vec_err * (1.0 / v1n + 1.0 / v2n)
-    bad = ~(sin >= 1e-2) | ~(v1n > TINY) | ~(v2n > TINY)
+    bad = ~(sin >= 1e-2) | ~(v1n > TINY) | ~(v2n > TINY) | ~(tol < 0.1)
     return np.where(bad, np.inf, tol)
 
 
@@ -635,6 +636,19 @@ def run_periodic(case):
             else:
                 o.fail("displacement_shape", f"displacement((3,), (k,3), box) has shape {np.asarray(dmix).shape}")
 
+        else:
+            # (k,3) of model 0 against (m,k,3) with the boxes of the models (broadcasting)
+            dmix = np.asarray(struc.displacement(cols32[0][0], cols32[1], box), dtype=float)
+            if o.check(dmix.shape == disp.shape, "displacement_shape", f"displacement((k,3), (m,k,3), box) has shape {dmix.shape}"):
+                for j in range(m):
+                    b = boxes[j if len(boxes) > 1 else 0]
+                    tolm = b.tol(float(np.abs(c32).max()))
+                    plain = cols32[1][j].astype(np.float64) - cols32[0][0].astype(np.float64)
+                    _, res = b.lattice(dmix[j] - plain)
+                    _cmp(o, res, np.zeros_like(res), tolm, "displacement_differs_by_lattice_vector", f"displacement((k,3), (m,k,3), box) model {j}")
+                    mv, mn = b.min_image(plain)
+                    _cmp(o, _norm(dmix[j]), mn, np.where(b.ortho | (mn < 0.5 * b.hmin - tolm), tolm, np.inf), "displacement_is_shortest_image", f"displacement((k,3), (m,k,3), box) model {j}")
+
     # index variants with periodic=True
     cont = case["container"]
     if cont == "ndarray":
@@ -827,7 +841,7 @@ def st_repeat(tier):
             "m": m,
             "n": n,
             "frac": draw(st_vec(m * n * 3, -1.0, 2.0)),
-            "amount": draw(st.sampled_from([0, 1, 1, 2, 2, 3] if big else [0, 1, 1, 2, 2])),
+            "amount": draw(st.sampled_from([2, 1, 0, 2, 1, 3] if big else [2, 1, 0, 2, 1])),
             "explicit_amount": draw(st.booleans()),
             "container": container,
             "bonds": draw(st.lists(st.lists(st.integers(0, 4), min_size=2, max_size=2), max_size=3)),
